@@ -848,6 +848,83 @@ def part_damage(c, harness, bindir, pkgs, scratch, tier):
 
 # ---------------------------------------------------------------------------------------------
 
+def part_wire(c, bindir, scratch, tier):
+    """Constants of every kind and bit-pattern class cross front end -> package -> code generator (the Rust reader of the
+    baseline generator and the Dora reader pkgs/boots/deserializer.dora of the optimizing one) and are printed by the
+    compiled program: every one must read back as it was written.  Float values are printed as bit patterns."""
+    import struct
+    ints64 = [0, 1, -1, 127, 128, 255, 256, 32767, 32768, 65535, 65536, 2 ** 31 - 1, 2 ** 31, 2 ** 31 + 1, 2 ** 32 - 1, 2 ** 32,
+              2 ** 32 + 1, 0x80000000FFFFFFFF - 2 ** 64, 0x7FFFFFFF80000000, 0x0123456789ABCDEF, -0x0123456789ABCDEF,
+              123456789012, 2 ** 63 - 1, -2 ** 63 + 1, 0x00FF00FF00FF00FF, -2147483648, -2147483649, -4294967296]
+    ints32 = [0, 1, -1, 127, 128, 255, 256, 32767, 32768, 65535, 65536, 2 ** 31 - 1, -2 ** 31 + 1, 0x00FF00FF, -16777216]
+    f64 = [0.0, 0.5, 0.1, 1.0 / 3.0, 2.0, 3.141592653589793, 1e100, 1e-100, 123456.789, 4294967295.5, 2147483648.25]
+    f32 = [0.0, 0.5, 0.1, 2.0, 3.1415927, 16777217.0, 1e-30]
+    lines = ["use std::string::Stringable;", "fn main() {"]
+    exp = []
+
+    def lit64(v):
+        return "(%d)" % v if v != -2 ** 63 else "(-9223372036854775807 - 1)"
+    for v in ints64:
+        lines.append("  println(%s.to_string());" % lit64(v))
+        exp.append(str(v))
+    for v in ints32:
+        lines.append("  println((%di32).to_string());" % v)
+        exp.append(str(v))
+    for v in f64:
+        bits = struct.unpack("<q", struct.pack("<d", v))[0]
+        r = repr(v)
+        if "e" in r or "E" in r:
+            continue    # no exponent syntax for float literals
+        lines.append("  println(%s.as_int64().to_string());" % r)
+        exp.append(str(bits))
+    for v in f32:
+        r = repr(v)
+        if "e" in r:
+            continue
+        bits = struct.unpack("<i", struct.pack("<f", v))[0]
+        lines.append("  println(%sf32.as_int32().to_string());" % r)
+        exp.append(str(bits))
+    # (Dora literal, expected code point) and (Dora literal, expected UTF-8 length)
+    for littxt, cp in (("'a'", 0x61), ("'ä'", 0xe4), ("'€'", 0x20ac), ("'😀'", 0x1f600)):
+        lines.append("  println(%s.to_int32().to_string());" % littxt)
+        exp.append(str(cp))
+    for littxt, n8 in (('""', 0), ('"x"', 1), ('"%s"' % ("a" * 127), 127), ('"%s"' % ("b" * 128), 128), ('"%s"' % ("c" * 300), 300),
+                       ('"ä€😀"', 9)):
+        lines.append("  println(%s.size().to_string());" % littxt)
+        exp.append(str(n8))
+    lines.append("}")
+    src = os.path.join(scratch, "wire.dora")
+    open(src, "w").write("\n".join(lines) + "\n")
+    expected = "\n".join(exp) + "\n"
+    pkg = os.path.join(scratch, "wire.dora-package")
+    p = subprocess.run([os.path.join(bindir, "dora"), "compile", "-c", src, "-o", pkg], stdout=subprocess.PIPE, stderr=subprocess.PIPE,
+                       env=tool_env(scratch), timeout=300)
+    if p.returncode != 0:
+        raise MachineryError("the constants program does not compile: " + p.stderr.decode("utf-8", "replace")[-1500:])
+    n = 0
+    for backend in ("cannon", "boots"):
+        for inp, how in ((src, "source"), (pkg, "package")):
+            exe = os.path.join(scratch, "wire-%s-%s" % (backend, how))
+            cmd = [os.path.join(bindir, "dora"), "compile", inp, "-o", exe] + (["--cannon"] if backend == "cannon" else [])
+            p = subprocess.run(cmd, stdout=subprocess.PIPE, stderr=subprocess.PIPE, env=tool_env(scratch), timeout=600)
+            if p.returncode != 0:
+                c.violation("c18:wire:compile-failed:%s" % backend, "constants program via %s does not build with %s: %s" % (
+                    how, backend, p.stderr.decode("utf-8", "replace")[-300:]), {"part": "wire", "source": open(src).read()})
+                continue
+            r = subprocess.run([exe], stdout=subprocess.PIPE, stderr=subprocess.PIPE, timeout=120)
+            out = r.stdout.decode("utf-8", "replace")
+            n += len(exp)
+            if r.returncode != 0 or out != expected:
+                got, want = out.splitlines(), expected.splitlines()
+                first = next((i for i in range(len(want)) if i >= len(got) or got[i] != want[i]), None)
+                c.violation("c18:wire:constant-read-back:%s" % backend,
+                            "a constant does not survive front end -> %s -> %s generator: line %s is %r, written as %r (source line: %s)" % (
+                                how, backend, first, got[first] if first is not None and first < len(got) else None,
+                                want[first] if first is not None else None, lines[2 + first].strip() if first is not None else ""),
+                            {"part": "wire", "backend": backend, "path": how, "source": open(src).read(), "stdout": out[-2000:], "expected": expected})
+    return {"wire_constants": len(exp), "wire_checks": n}
+
+
 def main(tier):
     c = vcommon.Check("C18", tier, "fault_enumeration")
     # VERIF_C18_PARTS=codec[,twin,program,two-paths,damage] restricts a run to some parts (debugging aid; the evidence then
@@ -895,7 +972,8 @@ def main(tier):
             lap("program codec")
         if "two-paths" in parts:
             cov3 = part_two_paths(c, bindir, pkgs, scratch, tier)
-            lap("two paths")
+            cov3.update(part_wire(c, bindir, scratch, tier))
+            lap("two paths + wire constants")
         if "damage" in parts:
             cov4, dsamples = part_damage(c, harness, bindir, pkgs, scratch, tier)
             lap("damage")
